@@ -15,6 +15,8 @@ hypotheses); the check lists them under `open_statements`.
 namespace Zvbi.Props.C07
 open Zvbi.Demux
 
+variable (cfg : SrcCfg)
+
 /-- **wrap_window.** `wrap_around` (any skip, any lookahead, any split of the data between the wrap
 buffer and the caller's buffer, at any source offset - coroutine re-entry included) never touches
 memory outside the two buffers (`WrapSpec` is `False` on `.fault`), and
@@ -54,28 +56,28 @@ theorem scan_window_independent (L w1 w2 : Bytes) (fs : FS) (sk1 sk2 la : Nat)
     (h1 : w1 <+: L) (h2 : w2 <+: L) (hla : 48 ≤ la) (hla2 : la ≤ 65495)
     (hw1 : la ≤ w1.length) (hw2 : la ≤ w2.length) :
     ∃ r1 r2 : Core, ∃ outs : List FrameOut,
-      pesIter true false sk1 la fs w1 = ((r1.skip, r1.lookahead), r1.fs, outs, none) ∧
-      pesIter true false sk2 la fs w2 = ((r2.skip, r2.lookahead), r2.fs, outs, none) ∧
-      1 ≤ r1.skip ∧ 1 ≤ r2.skip ∧ arun r1 L = arun r2 L := by
-  obtain ⟨a1, b1, c1, o1, e1, p1, _, _, ar1⟩ := pesIter_arun L w1 fs sk1 la h1 hla hla2 hw1
-  obtain ⟨a2, b2, c2, o2, e2, p2, _, _, ar2⟩ := pesIter_arun L w2 fs sk2 la h2 hla hla2 hw2
-  have hpre : (arun { skip := a1, lookahead := b1, fs := c1 } L).pre o1
-      = (arun { skip := a2, lookahead := b2, fs := c2 } L).pre o2 := by rw [← ar1, ← ar2]
+      pesIter true cfg sk1 la fs w1 = ((r1.skip, r1.lookahead), r1.fs, outs, none) ∧
+      pesIter true cfg sk2 la fs w2 = ((r2.skip, r2.lookahead), r2.fs, outs, none) ∧
+      1 ≤ r1.skip ∧ 1 ≤ r2.skip ∧ arun cfg r1 L = arun cfg r2 L := by
+  obtain ⟨a1, b1, c1, o1, e1, p1, _, _, ar1⟩ := pesIter_arun (cfg := cfg) L w1 fs sk1 la h1 hla hla2 hw1
+  obtain ⟨a2, b2, c2, o2, e2, p2, _, _, ar2⟩ := pesIter_arun (cfg := cfg) L w2 fs sk2 la h2 hla hla2 hw2
+  have hpre : (arun cfg { skip := a1, lookahead := b1, fs := c1 } L).pre o1
+      = (arun cfg { skip := a2, lookahead := b2, fs := c2 } L).pre o2 := by rw [← ar1, ← ar2]
   by_cases hp : la > 48
   · -- payload: both windows show the same `la` bytes
     have t1 : w1.take la = L.take la := by
       obtain ⟨t, rfl⟩ := h1; exact (List.take_append_of_le_length hw1).symm
     have t2 : w2.take la = L.take la := by
       obtain ⟨t, rfl⟩ := h2; exact (List.take_append_of_le_length hw2).symm
-    rw [pesIter_payload _ _ _ _ _ _ hp hw1, t1] at e1
-    rw [pesIter_payload _ _ _ _ _ _ hp hw2, t2] at e2
-    obtain ⟨f1, q1, hq1⟩ := payloadRes_ok false sk1 la fs (L.take la) (by
+    rw [pesIter_payload _ _ _ _ _ hp hw1, t1] at e1
+    rw [pesIter_payload _ _ _ _ _ hp hw2, t2] at e2
+    obtain ⟨f1, q1, hq1⟩ := payloadRes_ok cfg sk1 la fs (L.take la) (by
       have := h1.length_le; simp; omega)
-    obtain ⟨f2, q2, hq2⟩ := payloadRes_ok false sk2 la fs (L.take la) (by
+    obtain ⟨f2, q2, hq2⟩ := payloadRes_ok cfg sk2 la fs (L.take la) (by
       have := h1.length_le; simp; omega)
     have hsame : f1 = f2 ∧ q1 = q2 := by
       unfold payloadRes at hq1 hq2
-      rcases hpp : pesPacketFrame 3 true false { fs with frame := { fs.frame with nDu := 0 } } (L.take la)
+      rcases hpp : pesPacketFrame 3 true cfg.corSkipsEmpty { fs with frame := { fs.frame with nDu := 0 } } (L.take la)
         with ⟨a, b, r, c⟩
       rw [hpp] at hq1 hq2
       cases r <;> simp_all
@@ -85,18 +87,18 @@ theorem scan_window_independent (L w1 w2 : Bytes) (fs : FS) (sk1 sk2 la : Nat)
     simp only [Prod.mk.injEq] at e1 e2
     obtain ⟨⟨rfl, rfl⟩, rfl, rfl, -⟩ := e1
     obtain ⟨⟨rfl, rfl⟩, rfl, rfl, -⟩ := e2
-    exact ⟨⟨la, 48, f1⟩, ⟨la, 48, f1⟩, q1, by rw [pesIter_payload _ _ _ _ _ _ hp hw1, t1, hq1],
-      by rw [pesIter_payload _ _ _ _ _ _ hp hw2, t2, hq2], by omega, by omega, rfl⟩
+    exact ⟨⟨la, 48, f1⟩, ⟨la, 48, f1⟩, q1, by rw [pesIter_payload _ _ _ _ _ hp hw1, t1, hq1],
+      by rw [pesIter_payload _ _ _ _ _ hp hw2, t2, hq2], by omega, by omega, rfl⟩
   · -- scan: no frames are produced
     have h48 : la = 48 := by omega
     subst h48
     have o1nil : o1 = [] := by
-      rw [pesIter_scan _ _ _ _ _ hw1] at e1
-      obtain ⟨x, y, z, hx, _⟩ := scanLoop_arun L w1 fs sk1 h1 hw1 (w1.length + 1) 0 (Nat.zero_le _) (by omega)
+      rw [pesIter_scan _ _ _ _ hw1] at e1
+      obtain ⟨x, y, z, hx, _⟩ := scanLoop_arun (cfg := cfg) L w1 fs sk1 h1 hw1 (w1.length + 1) 0 (Nat.zero_le _) (by omega)
       rw [hx] at e1; simp only [Prod.mk.injEq] at e1; exact e1.2.2.1.symm
     have o2nil : o2 = [] := by
-      rw [pesIter_scan _ _ _ _ _ hw2] at e2
-      obtain ⟨x, y, z, hx, _⟩ := scanLoop_arun L w2 fs sk2 h2 hw2 (w2.length + 1) 0 (Nat.zero_le _) (by omega)
+      rw [pesIter_scan _ _ _ _ hw2] at e2
+      obtain ⟨x, y, z, hx, _⟩ := scanLoop_arun (cfg := cfg) L w2 fs sk2 h2 hw2 (w2.length + 1) 0 (Nat.zero_le _) (by omega)
       rw [hx] at e2; simp only [Prod.mk.injEq] at e2; exact e2.2.2.1.symm
     subst o1nil; subst o2nil
     rw [ARes.pre_nil, ARes.pre_nil] at hpre
@@ -105,23 +107,23 @@ theorem scan_window_independent (L w1 w2 : Bytes) (fs : FS) (sk1 sk2 la : Nat)
 /-- **feed_split_invariant (PES path, full).** For every reachable context (`Inv`), feeding `a` and
 then `b` delivers exactly the frames of feeding `a ++ b`, and ends in a context with the same
 resume state (skip, lookahead, frame/PTS state) and the same unconsumed bytes. -/
-theorem feed_split_invariant (s : St) (a b : Bytes) (h : Inv s) :
-    (pesFeed s (a ++ b)).frames = (pesFeed s a).frames ++ (pesFeed (pesFeed s a).st b).frames ∧
-    (pesFeed s (a ++ b)).st.core = (pesFeed (pesFeed s a).st b).st.core ∧
-    (pesFeed s (a ++ b)).st.pending = (pesFeed (pesFeed s a).st b).st.pending :=
-  pesFeed_split s a b h
+theorem feed_split_invariant (s : St) (a b : Bytes) (h : Inv cfg s) :
+    (pesFeed cfg s (a ++ b)).frames = (pesFeed cfg s a).frames ++ (pesFeed cfg (pesFeed cfg s a).st b).frames ∧
+    (pesFeed cfg s (a ++ b)).st.core = (pesFeed cfg (pesFeed cfg s a).st b).st.core ∧
+    (pesFeed cfg s (a ++ b)).st.pending = (pesFeed cfg (pesFeed cfg s a).st b).st.pending :=
+  pesFeed_split (cfg := cfg) s a b h
 
 /-- the invariant holds initially and after every feed call, so `feed_split_invariant` applies to
 every history of calls -/
-theorem inv_reachable (chunks : List Bytes) : Inv (pesFeeds St.init chunks).st :=
-  (pesFeeds_refines chunks St.init Inv_init).2.1
+theorem inv_reachable (chunks : List Bytes) : Inv cfg (pesFeeds cfg St.init chunks).st :=
+  (pesFeeds_refines (cfg := cfg) chunks St.init Inv_init).2.1
 
 /-- **frames = f(stream).** Any partition of a stream into successive `vbi_dvb_demux_feed` calls -
 of any sizes, down to single bytes, empty buffers included - delivers exactly `frames stream`,
 the value of the buffer-free stream machine on the concatenation. -/
 theorem feeds_equal_frames_of_stream (chunks : List Bytes) :
-    (pesFeeds St.init chunks).frames = frames chunks.flatten := by
-  have h := (pesFeeds_refines chunks St.init Inv_init).2.2
+    (pesFeeds cfg St.init chunks).frames = frames cfg chunks.flatten := by
+  have h := (pesFeeds_refines (cfg := cfg) chunks St.init Inv_init).2.2
   have e : St.init.pending ++ chunks.flatten = chunks.flatten := by
     simp [St.pending, St.init, Wrap.pend]
   rw [e] at h
@@ -129,21 +131,21 @@ theorem feeds_equal_frames_of_stream (chunks : List Bytes) :
   have : St.init.core = Core.init := rfl
   rw [← this, h]
 
-example : (pesFeeds St.init [[0, 0], [1], [0xBD, 0, 1]]).frames = frames [0, 0, 1, 0xBD, 0, 1] :=
-  feeds_equal_frames_of_stream [[0, 0], [1], [0xBD, 0, 1]]
+example : (pesFeeds cfg St.init [[0, 0], [1], [0xBD, 0, 1]]).frames = frames cfg [0, 0, 1, 0xBD, 0, 1] :=
+  feeds_equal_frames_of_stream cfg [[0, 0], [1], [0xBD, 0, 1]]
 
 /-- **garbage_safe.** Whatever bytes are fed in whatever pieces: no access outside the wrap buffer
 or the caller's buffer, no failed `assert`, no `for (;;)` that runs out of its fuel - every loop
 iteration consumes at least one byte or returns (the fuel `leftover + length + 2` suffices). -/
-theorem garbage_safe (chunks : List Bytes) : (pesFeeds St.init chunks).err = none :=
-  (pesFeeds_refines chunks St.init Inv_init).1
+theorem garbage_safe (chunks : List Bytes) : (pesFeeds cfg St.init chunks).err = none :=
+  (pesFeeds_refines (cfg := cfg) chunks St.init Inv_init).1
 
 /-- **progress of one call.** From a reachable context one `demux_pes_packet` call terminates
 within `pesFuel` iterations with "need more data" and has consumed the whole buffer. -/
-theorem feed_consumes_all (s : St) (buf : Bytes) (h : Inv s) :
-    ∃ s' outs, pesLoop (pesFuel s buf) true false s buf 0 buf.length = (s', outs, buf.length, .needMore) := by
+theorem feed_consumes_all (s : St) (buf : Bytes) (h : Inv cfg s) :
+    ∃ s' outs, pesLoop (pesFuel s buf) true cfg s buf 0 buf.length = (s', outs, buf.length, .needMore) := by
   have hpl : s.pending.length = s.pw.leftover := s.pw.pend_length h.1.1
-  obtain ⟨s', outs, hloop, _, _⟩ := pesLoop_refines (pesFuel s buf) s buf s.pending 0 h.1 (Nat.zero_le _)
+  obtain ⟨s', outs, hloop, _, _⟩ := pesLoop_refines (cfg := cfg) (pesFuel s buf) s buf s.pending 0 h.1 (Nat.zero_le _)
     (by simp) (by simp only [pesFuel, List.drop_zero, List.length_append, hpl]; omega)
   exact ⟨s', outs, hloop⟩
 
@@ -153,41 +155,39 @@ theorem packet_frame_two_rounds (se : Bool) (fs : FS) (d : Bytes) (hd : 2 ≤ d.
     (pesPacketFrame 3 true se fs d).2.2.1 = .done ∨ (pesPacketFrame 3 true se fs d).2.2.1 = .err :=
   pesPacketFrame_ok se fs d hd
 
-/-! ## Findings on the unchanged tree -/
+/-! ## The two defects of the unrepaired tree (fixed in /repo by 776a0f0 and 7c6e61c)
 
-/-- one legal 184-byte VBI PES packet: `[stuffing unit] [Teletext unit, line_offset 0, second field]` -/
-def livelockPacket : Bytes := [0, 0, 1, 189, 0, 178, 132, 128, 36, 33, 0, 1, 7, 209, 255, 255, 255, 255, 255, 255, 255, 255, 255, 255, 255, 255, 255, 255, 255, 255, 255, 255, 255, 255, 255, 255, 255, 255, 255, 255, 255, 255, 255, 255, 255, 16, 255, 44, 255, 255, 255, 255, 255, 255, 255, 255, 255, 255, 255, 255, 255, 255, 255, 255, 255, 255, 255, 255, 255, 255, 255, 255, 255, 255, 255, 255, 255, 255, 255, 255, 255, 255, 255, 255, 255, 255, 255, 255, 255, 255, 255, 255, 2, 44, 192, 228, 140, 140, 140, 140, 140, 140, 140, 140, 140, 140, 140, 140, 140, 140, 140, 140, 140, 140, 140, 140, 140, 140, 140, 140, 140, 140, 140, 140, 140, 140, 140, 140, 140, 140, 140, 140, 140, 140, 140, 140, 140, 140, 255, 44, 255, 255, 255, 255, 255, 255, 255, 255, 255, 255, 255, 255, 255, 255, 255, 255, 255, 255, 255, 255, 255, 255, 255, 255, 255, 255, 255, 255, 255, 255, 255, 255, 255, 255, 255, 255, 255, 255, 255, 255, 255, 255, 255, 255]
+Stated for the *unrepaired* shape of the source explicitly (`SrcCfg.unrepaired`, resp. the hypothesis
+`cfg.pesDiscards = false`), never through the generated constants, so they stay true whatever the
+current tree looks like.  Witness packets are built in `Demux/Spec.lean` (`livelockPacket`,
+`overflowPacket`); the same bytes are `corpus/C07/*.ops`. -/
 
-/-- **cor_equals_feed is false on the unchanged tree (finding C07-cor-livelock).** Draining
-`livelockPacket` through `vbi_dvb_demux_cor` (source shape `skipEmpty = false`) never consumes it:
-three calls in a row return 0 lines with `*buffer_left` unchanged, and the state repeats.
-The same witness is `corpus/C07/cor-livelock.ops` on the C code. -/
+/-- **cor_equals_feed was false before 776a0f0 (F55).** Draining `livelockPacket` through
+`vbi_dvb_demux_cor` never consumes it: three calls in a row return 0 lines with `*buffer_left`
+unchanged (and the state repeats). -/
 theorem cor_livelock_counterexample :
-    (pesCorDrain 8 false 0 St.init livelockPacket 0 64).err = some (.assertFail "cor_livelock") := by
+    (pesCorDrain 8 SrcCfg.unrepaired 0 St.init livelockPacket 0 64).err = some (.assertFail "cor_livelock") := by
   decide +kernel
 
-/-- with the proposed repair (`skipEmpty = true`) the same packet is consumed and nothing is stuck -/
-example : (pesCorDrain 8 true 0 St.init livelockPacket 0 64).err = none := by decide +kernel
+/-- with the repair the same packet is consumed -/
+example : (pesCorDrain 8 SrcCfg.repaired 0 St.init livelockPacket 0 64).err = none := by decide +kernel
 /-- through the callback interface the packet is consumed too (with a spurious empty frame first) -/
-example : (pesFeed St.init livelockPacket).err = none ∧ (pesFeed St.init livelockPacket).frames.length = 1 := by
-  decide +kernel
+example : (pesFeed SrcCfg.repaired St.init livelockPacket).err = none ∧
+    (pesFeed SrcCfg.repaired St.init livelockPacket).frames.length = 1 := by decide +kernel
 
-/-- **resync is false on the unchanged tree (finding C07-pes-lockup).** While `demux_pes_packet`
-tests `err < 0` (`demuxPesDiscardsOnError = false`), a reachable PES context whose line buffer is
-full and which is not at a frame start (`Deaf`) is absorbing: whatever is fed afterwards, in
-whatever pieces - intact packets included - no frame is delivered ever again. -/
-theorem pes_lockup_unchanged_tree (hflag : Zvbi.Gen.demuxPesDiscardsOnError = false)
-    (s : St) (h : Inv s) (hd : Deaf s.fs) (chunks : List Bytes) : (pesFeeds s chunks).frames = [] := by
-  have h1 := (pesFeeds_refines chunks s h).2.2
-  have h2 := (arun_deaf hflag (s.pending ++ chunks.flatten) s.core hd).1
+/-- **resync was false before 7c6e61c (F56).** While `demux_pes_packet` tests `err < 0`
+(`cfg.pesDiscards = false`), a reachable PES context whose line buffer is full and which is not at
+a frame start (`Deaf`) is absorbing: whatever is fed afterwards, in whatever pieces - intact
+packets included - no frame is delivered ever again. -/
+theorem pes_lockup_unrepaired (hflag : cfg.pesDiscards = false)
+    (s : St) (h : Inv cfg s) (hd : Deaf s.fs) (chunks : List Bytes) : (pesFeeds cfg s chunks).frames = [] := by
+  have h1 := (pesFeeds_refines (cfg := cfg) chunks s h).2.2
+  have h2 := (arun_deaf (cfg := cfg) hflag (s.pending ++ chunks.flatten) s.core hd).1
   rw [h1] at h2
   exact h2
 
-/-- a packet with 70 Teletext units (undefined line) -/
-def overflowPacket : Bytes := [0, 0, 1, 189, 12, 234, 132, 128, 36, 33, 0, 1, 7, 209, 255, 255, 255, 255, 255, 255, 255, 255, 255, 255, 255, 255, 255, 255, 255, 255, 255, 255, 255, 255, 255, 255, 255, 255, 255, 255, 255, 255, 255, 255, 255, 16, 2, 44, 224, 228, 2, 2, 2, 2, 2, 2, 2, 2, 2, 2, 2, 2, 2, 2, 2, 2, 2, 2, 2, 2, 2, 2, 2, 2, 2, 2, 2, 2, 2, 2, 2, 2, 2, 2, 2, 2, 2, 2, 2, 2, 2, 2, 2, 44, 224, 228, 130, 130, 130, 130, 130, 130, 130, 130, 130, 130, 130, 130, 130, 130, 130, 130, 130, 130, 130, 130, 130, 130, 130, 130, 130, 130, 130, 130, 130, 130, 130, 130, 130, 130, 130, 130, 130, 130, 130, 130, 130, 130, 2, 44, 224, 228, 66, 66, 66, 66, 66, 66, 66, 66, 66, 66, 66, 66, 66, 66, 66, 66, 66, 66, 66, 66, 66, 66, 66, 66, 66, 66, 66, 66, 66, 66, 66, 66, 66, 66, 66, 66, 66, 66, 66, 66, 66, 66, 2, 44, 224, 228, 194, 194, 194, 194, 194, 194, 194, 194, 194, 194, 194, 194, 194, 194, 194, 194, 194, 194, 194, 194, 194, 194, 194, 194, 194, 194, 194, 194, 194, 194, 194, 194, 194, 194, 194, 194, 194, 194, 194, 194, 194, 194, 2, 44, 224, 228, 34, 34, 34, 34, 34, 34, 34, 34, 34, 34, 34, 34, 34, 34, 34, 34, 34, 34, 34, 34, 34, 34, 34, 34, 34, 34, 34, 34, 34, 34, 34, 34, 34, 34, 34, 34, 34, 34, 34, 34, 34, 34, 2, 44, 224, 228, 162, 162, 162, 162, 162, 162, 162, 162, 162, 162, 162, 162, 162, 162, 162, 162, 162, 162, 162, 162, 162, 162, 162, 162, 162, 162, 162, 162, 162, 162, 162, 162, 162, 162, 162, 162, 162, 162, 162, 162, 162, 162, 2, 44, 224, 228, 98, 98, 98, 98, 98, 98, 98, 98, 98, 98, 98, 98, 98, 98, 98, 98, 98, 98, 98, 98, 98, 98, 98, 98, 98, 98, 98, 98, 98, 98, 98, 98, 98, 98, 98, 98, 98, 98, 98, 98, 98, 98, 2, 44, 224, 228, 226, 226, 226, 226, 226, 226, 226, 226, 226, 226, 226, 226, 226, 226, 226, 226, 226, 226, 226, 226, 226, 226, 226, 226, 226, 226, 226, 226, 226, 226, 226, 226, 226, 226, 226, 226, 226, 226, 226, 226, 226, 226, 2, 44, 224, 228, 18, 18, 18, 18, 18, 18, 18, 18, 18, 18, 18, 18, 18, 18, 18, 18, 18, 18, 18, 18, 18, 18, 18, 18, 18, 18, 18, 18, 18, 18, 18, 18, 18, 18, 18, 18, 18, 18, 18, 18, 18, 18, 2, 44, 224, 228, 146, 146, 146, 146, 146, 146, 146, 146, 146, 146, 146, 146, 146, 146, 146, 146, 146, 146, 146, 146, 146, 146, 146, 146, 146, 146, 146, 146, 146, 146, 146, 146, 146, 146, 146, 146, 146, 146, 146, 146, 146, 146, 2, 44, 224, 228, 82, 82, 82, 82, 82, 82, 82, 82, 82, 82, 82, 82, 82, 82, 82, 82, 82, 82, 82, 82, 82, 82, 82, 82, 82, 82, 82, 82, 82, 82, 82, 82, 82, 82, 82, 82, 82, 82, 82, 82, 82, 82, 2, 44, 224, 228, 210, 210, 210, 210, 210, 210, 210, 210, 210, 210, 210, 210, 210, 210, 210, 210, 210, 210, 210, 210, 210, 210, 210, 210, 210, 210, 210, 210, 210, 210, 210, 210, 210, 210, 210, 210, 210, 210, 210, 210, 210, 210, 2, 44, 224, 228, 50, 50, 50, 50, 50, 50, 50, 50, 50, 50, 50, 50, 50, 50, 50, 50, 50, 50, 50, 50, 50, 50, 50, 50, 50, 50, 50, 50, 50, 50, 50, 50, 50, 50, 50, 50, 50, 50, 50, 50, 50, 50, 2, 44, 224, 228, 178, 178, 178, 178, 178, 178, 178, 178, 178, 178, 178, 178, 178, 178, 178, 178, 178, 178, 178, 178, 178, 178, 178, 178, 178, 178, 178, 178, 178, 178, 178, 178, 178, 178, 178, 178, 178, 178, 178, 178, 178, 178, 2, 44, 224, 228, 114, 114, 114, 114, 114, 114, 114, 114, 114, 114, 114, 114, 114, 114, 114, 114, 114, 114, 114, 114, 114, 114, 114, 114, 114, 114, 114, 114, 114, 114, 114, 114, 114, 114, 114, 114, 114, 114, 114, 114, 114, 114, 2, 44, 224, 228, 242, 242, 242, 242, 242, 242, 242, 242, 242, 242, 242, 242, 242, 242, 242, 242, 242, 242, 242, 242, 242, 242, 242, 242, 242, 242, 242, 242, 242, 242, 242, 242, 242, 242, 242, 242, 242, 242, 242, 242, 242, 242, 2, 44, 224, 228, 10, 10, 10, 10, 10, 10, 10, 10, 10, 10, 10, 10, 10, 10, 10, 10, 10, 10, 10, 10, 10, 10, 10, 10, 10, 10, 10, 10, 10, 10, 10, 10, 10, 10, 10, 10, 10, 10, 10, 10, 10, 10, 2, 44, 224, 228, 138, 138, 138, 138, 138, 138, 138, 138, 138, 138, 138, 138, 138, 138, 138, 138, 138, 138, 138, 138, 138, 138, 138, 138, 138, 138, 138, 138, 138, 138, 138, 138, 138, 138, 138, 138, 138, 138, 138, 138, 138, 138, 2, 44, 224, 228, 74, 74, 74, 74, 74, 74, 74, 74, 74, 74, 74, 74, 74, 74, 74, 74, 74, 74, 74, 74, 74, 74, 74, 74, 74, 74, 74, 74, 74, 74, 74, 74, 74, 74, 74, 74, 74, 74, 74, 74, 74, 74, 2, 44, 224, 228, 202, 202, 202, 202, 202, 202, 202, 202, 202, 202, 202, 202, 202, 202, 202, 202, 202, 202, 202, 202, 202, 202, 202, 202, 202, 202, 202, 202, 202, 202, 202, 202, 202, 202, 202, 202, 202, 202, 202, 202, 202, 202, 2, 44, 224, 228, 2, 2, 2, 2, 2, 2, 2, 2, 2, 2, 2, 2, 2, 2, 2, 2, 2, 2, 2, 2, 2, 2, 2, 2, 2, 2, 2, 2, 2, 2, 2, 2, 2, 2, 2, 2, 2, 2, 2, 2, 2, 2, 2, 44, 224, 228, 130, 130, 130, 130, 130, 130, 130, 130, 130, 130, 130, 130, 130, 130, 130, 130, 130, 130, 130, 130, 130, 130, 130, 130, 130, 130, 130, 130, 130, 130, 130, 130, 130, 130, 130, 130, 130, 130, 130, 130, 130, 130, 2, 44, 224, 228, 66, 66, 66, 66, 66, 66, 66, 66, 66, 66, 66, 66, 66, 66, 66, 66, 66, 66, 66, 66, 66, 66, 66, 66, 66, 66, 66, 66, 66, 66, 66, 66, 66, 66, 66, 66, 66, 66, 66, 66, 66, 66, 2, 44, 224, 228, 194, 194, 194, 194, 194, 194, 194, 194, 194, 194, 194, 194, 194, 194, 194, 194, 194, 194, 194, 194, 194, 194, 194, 194, 194, 194, 194, 194, 194, 194, 194, 194, 194, 194, 194, 194, 194, 194, 194, 194, 194, 194, 2, 44, 224, 228, 34, 34, 34, 34, 34, 34, 34, 34, 34, 34, 34, 34, 34, 34, 34, 34, 34, 34, 34, 34, 34, 34, 34, 34, 34, 34, 34, 34, 34, 34, 34, 34, 34, 34, 34, 34, 34, 34, 34, 34, 34, 34, 2, 44, 224, 228, 162, 162, 162, 162, 162, 162, 162, 162, 162, 162, 162, 162, 162, 162, 162, 162, 162, 162, 162, 162, 162, 162, 162, 162, 162, 162, 162, 162, 162, 162, 162, 162, 162, 162, 162, 162, 162, 162, 162, 162, 162, 162, 2, 44, 224, 228, 98, 98, 98, 98, 98, 98, 98, 98, 98, 98, 98, 98, 98, 98, 98, 98, 98, 98, 98, 98, 98, 98, 98, 98, 98, 98, 98, 98, 98, 98, 98, 98, 98, 98, 98, 98, 98, 98, 98, 98, 98, 98, 2, 44, 224, 228, 226, 226, 226, 226, 226, 226, 226, 226, 226, 226, 226, 226, 226, 226, 226, 226, 226, 226, 226, 226, 226, 226, 226, 226, 226, 226, 226, 226, 226, 226, 226, 226, 226, 226, 226, 226, 226, 226, 226, 226, 226, 226, 2, 44, 224, 228, 18, 18, 18, 18, 18, 18, 18, 18, 18, 18, 18, 18, 18, 18, 18, 18, 18, 18, 18, 18, 18, 18, 18, 18, 18, 18, 18, 18, 18, 18, 18, 18, 18, 18, 18, 18, 18, 18, 18, 18, 18, 18, 2, 44, 224, 228, 146, 146, 146, 146, 146, 146, 146, 146, 146, 146, 146, 146, 146, 146, 146, 146, 146, 146, 146, 146, 146, 146, 146, 146, 146, 146, 146, 146, 146, 146, 146, 146, 146, 146, 146, 146, 146, 146, 146, 146, 146, 146, 2, 44, 224, 228, 82, 82, 82, 82, 82, 82, 82, 82, 82, 82, 82, 82, 82, 82, 82, 82, 82, 82, 82, 82, 82, 82, 82, 82, 82, 82, 82, 82, 82, 82, 82, 82, 82, 82, 82, 82, 82, 82, 82, 82, 82, 82, 2, 44, 224, 228, 210, 210, 210, 210, 210, 210, 210, 210, 210, 210, 210, 210, 210, 210, 210, 210, 210, 210, 210, 210, 210, 210, 210, 210, 210, 210, 210, 210, 210, 210, 210, 210, 210, 210, 210, 210, 210, 210, 210, 210, 210, 210, 2, 44, 224, 228, 50, 50, 50, 50, 50, 50, 50, 50, 50, 50, 50, 50, 50, 50, 50, 50, 50, 50, 50, 50, 50, 50, 50, 50, 50, 50, 50, 50, 50, 50, 50, 50, 50, 50, 50, 50, 50, 50, 50, 50, 50, 50, 2, 44, 224, 228, 178, 178, 178, 178, 178, 178, 178, 178, 178, 178, 178, 178, 178, 178, 178, 178, 178, 178, 178, 178, 178, 178, 178, 178, 178, 178, 178, 178, 178, 178, 178, 178, 178, 178, 178, 178, 178, 178, 178, 178, 178, 178, 2, 44, 224, 228, 114, 114, 114, 114, 114, 114, 114, 114, 114, 114, 114, 114, 114, 114, 114, 114, 114, 114, 114, 114, 114, 114, 114, 114, 114, 114, 114, 114, 114, 114, 114, 114, 114, 114, 114, 114, 114, 114, 114, 114, 114, 114, 2, 44, 224, 228, 242, 242, 242, 242, 242, 242, 242, 242, 242, 242, 242, 242, 242, 242, 242, 242, 242, 242, 242, 242, 242, 242, 242, 242, 242, 242, 242, 242, 242, 242, 242, 242, 242, 242, 242, 242, 242, 242, 242, 242, 242, 242, 2, 44, 224, 228, 10, 10, 10, 10, 10, 10, 10, 10, 10, 10, 10, 10, 10, 10, 10, 10, 10, 10, 10, 10, 10, 10, 10, 10, 10, 10, 10, 10, 10, 10, 10, 10, 10, 10, 10, 10, 10, 10, 10, 10, 10, 10, 2, 44, 224, 228, 138, 138, 138, 138, 138, 138, 138, 138, 138, 138, 138, 138, 138, 138, 138, 138, 138, 138, 138, 138, 138, 138, 138, 138, 138, 138, 138, 138, 138, 138, 138, 138, 138, 138, 138, 138, 138, 138, 138, 138, 138, 138, 2, 44, 224, 228, 74, 74, 74, 74, 74, 74, 74, 74, 74, 74, 74, 74, 74, 74, 74, 74, 74, 74, 74, 74, 74, 74, 74, 74, 74, 74, 74, 74, 74, 74, 74, 74, 74, 74, 74, 74, 74, 74, 74, 74, 74, 74, 2, 44, 224, 228, 202, 202, 202, 202, 202, 202, 202, 202, 202, 202, 202, 202, 202, 202, 202, 202, 202, 202, 202, 202, 202, 202, 202, 202, 202, 202, 202, 202, 202, 202, 202, 202, 202, 202, 202, 202, 202, 202, 202, 202, 202, 202, 2, 44, 224, 228, 2, 2, 2, 2, 2, 2, 2, 2, 2, 2, 2, 2, 2, 2, 2, 2, 2, 2, 2, 2, 2, 2, 2, 2, 2, 2, 2, 2, 2, 2, 2, 2, 2, 2, 2, 2, 2, 2, 2, 2, 2, 2, 2, 44, 224, 228, 130, 130, 130, 130, 130, 130, 130, 130, 130, 130, 130, 130, 130, 130, 130, 130, 130, 130, 130, 130, 130, 130, 130, 130, 130, 130, 130, 130, 130, 130, 130, 130, 130, 130, 130, 130, 130, 130, 130, 130, 130, 130, 2, 44, 224, 228, 66, 66, 66, 66, 66, 66, 66, 66, 66, 66, 66, 66, 66, 66, 66, 66, 66, 66, 66, 66, 66, 66, 66, 66, 66, 66, 66, 66, 66, 66, 66, 66, 66, 66, 66, 66, 66, 66, 66, 66, 66, 66, 2, 44, 224, 228, 194, 194, 194, 194, 194, 194, 194, 194, 194, 194, 194, 194, 194, 194, 194, 194, 194, 194, 194, 194, 194, 194, 194, 194, 194, 194, 194, 194, 194, 194, 194, 194, 194, 194, 194, 194, 194, 194, 194, 194, 194, 194, 2, 44, 224, 228, 34, 34, 34, 34, 34, 34, 34, 34, 34, 34, 34, 34, 34, 34, 34, 34, 34, 34, 34, 34, 34, 34, 34, 34, 34, 34, 34, 34, 34, 34, 34, 34, 34, 34, 34, 34, 34, 34, 34, 34, 34, 34, 2, 44, 224, 228, 162, 162, 162, 162, 162, 162, 162, 162, 162, 162, 162, 162, 162, 162, 162, 162, 162, 162, 162, 162, 162, 162, 162, 162, 162, 162, 162, 162, 162, 162, 162, 162, 162, 162, 162, 162, 162, 162, 162, 162, 162, 162, 2, 44, 224, 228, 98, 98, 98, 98, 98, 98, 98, 98, 98, 98, 98, 98, 98, 98, 98, 98, 98, 98, 98, 98, 98, 98, 98, 98, 98, 98, 98, 98, 98, 98, 98, 98, 98, 98, 98, 98, 98, 98, 98, 98, 98, 98, 2, 44, 224, 228, 226, 226, 226, 226, 226, 226, 226, 226, 226, 226, 226, 226, 226, 226, 226, 226, 226, 226, 226, 226, 226, 226, 226, 226, 226, 226, 226, 226, 226, 226, 226, 226, 226, 226, 226, 226, 226, 226, 226, 226, 226, 226, 2, 44, 224, 228, 18, 18, 18, 18, 18, 18, 18, 18, 18, 18, 18, 18, 18, 18, 18, 18, 18, 18, 18, 18, 18, 18, 18, 18, 18, 18, 18, 18, 18, 18, 18, 18, 18, 18, 18, 18, 18, 18, 18, 18, 18, 18, 2, 44, 224, 228, 146, 146, 146, 146, 146, 146, 146, 146, 146, 146, 146, 146, 146, 146, 146, 146, 146, 146, 146, 146, 146, 146, 146, 146, 146, 146, 146, 146, 146, 146, 146, 146, 146, 146, 146, 146, 146, 146, 146, 146, 146, 146, 2, 44, 224, 228, 82, 82, 82, 82, 82, 82, 82, 82, 82, 82, 82, 82, 82, 82, 82, 82, 82, 82, 82, 82, 82, 82, 82, 82, 82, 82, 82, 82, 82, 82, 82, 82, 82, 82, 82, 82, 82, 82, 82, 82, 82, 82, 2, 44, 224, 228, 210, 210, 210, 210, 210, 210, 210, 210, 210, 210, 210, 210, 210, 210, 210, 210, 210, 210, 210, 210, 210, 210, 210, 210, 210, 210, 210, 210, 210, 210, 210, 210, 210, 210, 210, 210, 210, 210, 210, 210, 210, 210, 2, 44, 224, 228, 50, 50, 50, 50, 50, 50, 50, 50, 50, 50, 50, 50, 50, 50, 50, 50, 50, 50, 50, 50, 50, 50, 50, 50, 50, 50, 50, 50, 50, 50, 50, 50, 50, 50, 50, 50, 50, 50, 50, 50, 50, 50, 2, 44, 224, 228, 178, 178, 178, 178, 178, 178, 178, 178, 178, 178, 178, 178, 178, 178, 178, 178, 178, 178, 178, 178, 178, 178, 178, 178, 178, 178, 178, 178, 178, 178, 178, 178, 178, 178, 178, 178, 178, 178, 178, 178, 178, 178, 2, 44, 224, 228, 114, 114, 114, 114, 114, 114, 114, 114, 114, 114, 114, 114, 114, 114, 114, 114, 114, 114, 114, 114, 114, 114, 114, 114, 114, 114, 114, 114, 114, 114, 114, 114, 114, 114, 114, 114, 114, 114, 114, 114, 114, 114, 2, 44, 224, 228, 242, 242, 242, 242, 242, 242, 242, 242, 242, 242, 242, 242, 242, 242, 242, 242, 242, 242, 242, 242, 242, 242, 242, 242, 242, 242, 242, 242, 242, 242, 242, 242, 242, 242, 242, 242, 242, 242, 242, 242, 242, 242, 2, 44, 224, 228, 10, 10, 10, 10, 10, 10, 10, 10, 10, 10, 10, 10, 10, 10, 10, 10, 10, 10, 10, 10, 10, 10, 10, 10, 10, 10, 10, 10, 10, 10, 10, 10, 10, 10, 10, 10, 10, 10, 10, 10, 10, 10, 2, 44, 224, 228, 138, 138, 138, 138, 138, 138, 138, 138, 138, 138, 138, 138, 138, 138, 138, 138, 138, 138, 138, 138, 138, 138, 138, 138, 138, 138, 138, 138, 138, 138, 138, 138, 138, 138, 138, 138, 138, 138, 138, 138, 138, 138, 2, 44, 224, 228, 74, 74, 74, 74, 74, 74, 74, 74, 74, 74, 74, 74, 74, 74, 74, 74, 74, 74, 74, 74, 74, 74, 74, 74, 74, 74, 74, 74, 74, 74, 74, 74, 74, 74, 74, 74, 74, 74, 74, 74, 74, 74, 2, 44, 224, 228, 202, 202, 202, 202, 202, 202, 202, 202, 202, 202, 202, 202, 202, 202, 202, 202, 202, 202, 202, 202, 202, 202, 202, 202, 202, 202, 202, 202, 202, 202, 202, 202, 202, 202, 202, 202, 202, 202, 202, 202, 202, 202, 2, 44, 224, 228, 2, 2, 2, 2, 2, 2, 2, 2, 2, 2, 2, 2, 2, 2, 2, 2, 2, 2, 2, 2, 2, 2, 2, 2, 2, 2, 2, 2, 2, 2, 2, 2, 2, 2, 2, 2, 2, 2, 2, 2, 2, 2, 2, 44, 224, 228, 130, 130, 130, 130, 130, 130, 130, 130, 130, 130, 130, 130, 130, 130, 130, 130, 130, 130, 130, 130, 130, 130, 130, 130, 130, 130, 130, 130, 130, 130, 130, 130, 130, 130, 130, 130, 130, 130, 130, 130, 130, 130, 2, 44, 224, 228, 66, 66, 66, 66, 66, 66, 66, 66, 66, 66, 66, 66, 66, 66, 66, 66, 66, 66, 66, 66, 66, 66, 66, 66, 66, 66, 66, 66, 66, 66, 66, 66, 66, 66, 66, 66, 66, 66, 66, 66, 66, 66, 2, 44, 224, 228, 194, 194, 194, 194, 194, 194, 194, 194, 194, 194, 194, 194, 194, 194, 194, 194, 194, 194, 194, 194, 194, 194, 194, 194, 194, 194, 194, 194, 194, 194, 194, 194, 194, 194, 194, 194, 194, 194, 194, 194, 194, 194, 2, 44, 224, 228, 34, 34, 34, 34, 34, 34, 34, 34, 34, 34, 34, 34, 34, 34, 34, 34, 34, 34, 34, 34, 34, 34, 34, 34, 34, 34, 34, 34, 34, 34, 34, 34, 34, 34, 34, 34, 34, 34, 34, 34, 34, 34, 2, 44, 224, 228, 162, 162, 162, 162, 162, 162, 162, 162, 162, 162, 162, 162, 162, 162, 162, 162, 162, 162, 162, 162, 162, 162, 162, 162, 162, 162, 162, 162, 162, 162, 162, 162, 162, 162, 162, 162, 162, 162, 162, 162, 162, 162, 2, 44, 224, 228, 98, 98, 98, 98, 98, 98, 98, 98, 98, 98, 98, 98, 98, 98, 98, 98, 98, 98, 98, 98, 98, 98, 98, 98, 98, 98, 98, 98, 98, 98, 98, 98, 98, 98, 98, 98, 98, 98, 98, 98, 98, 98, 2, 44, 224, 228, 226, 226, 226, 226, 226, 226, 226, 226, 226, 226, 226, 226, 226, 226, 226, 226, 226, 226, 226, 226, 226, 226, 226, 226, 226, 226, 226, 226, 226, 226, 226, 226, 226, 226, 226, 226, 226, 226, 226, 226, 226, 226, 2, 44, 224, 228, 18, 18, 18, 18, 18, 18, 18, 18, 18, 18, 18, 18, 18, 18, 18, 18, 18, 18, 18, 18, 18, 18, 18, 18, 18, 18, 18, 18, 18, 18, 18, 18, 18, 18, 18, 18, 18, 18, 18, 18, 18, 18, 2, 44, 224, 228, 146, 146, 146, 146, 146, 146, 146, 146, 146, 146, 146, 146, 146, 146, 146, 146, 146, 146, 146, 146, 146, 146, 146, 146, 146, 146, 146, 146, 146, 146, 146, 146, 146, 146, 146, 146, 146, 146, 146, 146, 146, 146, 255, 44, 255, 255, 255, 255, 255, 255, 255, 255, 255, 255, 255, 255, 255, 255, 255, 255, 255, 255, 255, 255, 255, 255, 255, 255, 255, 255, 255, 255, 255, 255, 255, 255, 255, 255, 255, 255, 255, 255, 255, 255, 255, 255, 255, 255]
-
-/-- the absorbing state is reachable with one packet (the witness of `corpus/C07/pes-lockup.ops`) -/
-theorem pes_lockup_reachable : Deaf (pesFeed St.init overflowPacket).st.fs := by
+/-- the absorbing state was reachable with one packet -/
+theorem pes_lockup_reachable : Deaf (pesFeed SrcCfg.unrepaired St.init overflowPacket).st.fs := by
   unfold Deaf Full
   decide +kernel
 
@@ -205,15 +205,15 @@ def ts_feed_split_invariant_full : Prop :=
 finding C07-cor-livelock, see `cor_livelock_counterexample`); expected to hold with the fix. -/
 def cor_equals_feed_full : Prop :=
   ∀ (chunks : List Bytes) (buf : Bytes),
-    let s := (pesFeeds St.init chunks).st
-    let r := pesCorDrain (2 * buf.length + 4) true 0 s buf 0 64
-    r.err = none ∧ r.frames = (pesFeed s buf).frames.filter (fun f => !f.lines.isEmpty)
+    let s := (pesFeeds cfg St.init chunks).st
+    let r := pesCorDrain (2 * buf.length + 4) cfg 0 s buf 0 64
+    r.err = none ∧ r.frames = (pesFeed cfg s buf).frames.filter (fun f => !f.lines.isEmpty)
 
 /-- resync, end to end: after arbitrary damage, once the demultiplexer is at a packet boundary of an
 intact stream, every frame but at most the first is delivered as sent.  Needs the sender spec of C06
 (`ZvbiModel/Mux`); judged by the oracle of the C07 check on every run. -/
 def resync_full : Prop :=
   ∀ (c : Core) (L : Bytes), c.skip = 0 → c.lookahead = 48 →
-    ∃ x y rest, (arun c L).frames = x ++ rest ∧ frames L = y ++ rest ∧ x.length ≤ 2 ∧ y.length ≤ 1
+    ∃ x y rest, (arun cfg c L).frames = x ++ rest ∧ frames cfg L = y ++ rest ∧ x.length ≤ 2 ∧ y.length ≤ 1
 
 end Zvbi.Props.C07
